@@ -15,6 +15,7 @@ import (
 func rq(mode string) tstep           { return tstep{Mode: mode} }
 func (s tstep) after(ms int) tstep   { s.Adv = ms; return s }
 func (s tstep) sleeps(sec int) tstep { s.Delay = sec; return s }
+func (s tstep) async(ms int) tstep   { s.Async, s.AsyncMs = true, ms; return s }
 func (s tstep) maxFunc(n int) tstep  { s.Max = n; return s }
 func (s tstep) key(k int) tstep      { s.Key = k; return s }
 func steps(ss ...tstep) []tstep      { return ss }
@@ -116,6 +117,22 @@ func corpus(e *ev.Env) {
 	// with full weight
 	hist(e, "sliding-idle-window-stale-previous-reject", sto(slidingW(2, 2)), steps(rq("200"), rq("200"), rq("200").after(3500)))
 	hist(e, "sliding-idle-window-stale-previous-remaining", sto(slidingW(3, 5)), steps(rq("200"), rq("200").after(2000), rq("200").after(7500)))
+
+	// ---- slow handlers beside the history: a failing request outlives its window while the
+	// next window fills up; when it is finally answered the current window's count must stand
+	// (fourth request: 429), also on a second key that is new at that moment
+	for _, b := range []func(tcfg) tcfg{mem, sto} {
+		n := b(tcfg{}).backend()
+		hist(e, "overlap-late-failure-keeps-window-count-fixed-"+n, b(fixedW(2, 2)).skipFailed(), steps(
+			rq("500").async(2100), rq("200").after(2000), rq("200"), rq("200").after(1000), rq("200")))
+		hist(e, "overlap-late-failure-keeps-window-count-sliding-"+n, b(slidingW(2, 2)).skipFailed(), steps(
+			rq("500").async(4100), rq("200").after(4000), rq("200"), rq("200").after(1000), rq("200")))
+		hist(e, "overlap-late-success-other-key-"+n, b(fixedW(1, 2)).skipSuccessful().keys(2), steps(
+			rq("200").async(3100), rq("500").after(2000), rq("500").after(1000).key(1), rq("500").key(1), rq("500"),
+			rq("500").after(2000), rq("500").key(1), rq("500"), rq("500").key(1)))
+		hist(e, "overlap-refund-inside-window-"+n, b(fixedW(2, 3)).skipFailed(), steps(
+			rq("500").async(1100), rq("200"), rq("200"), rq("200").after(2000), rq("200"), rq("200")))
+	}
 
 	// ---- probe, not a verdict: fiber.Storage documents "Empty key or value will be ignored"
 	// for Set. A KeyGenerator that returns "" (the documentation's own example reads a header
